@@ -573,6 +573,53 @@ func (g *genState) genCase(id string) {
 					break
 				}
 			}
+			// read - write - read inside ONE transaction: the same iterating query on the transaction before and
+			// after a single write of any kind on that table (a transaction reads its own writes through every
+			// index; S4-C03-1: a cached iterator snapshot that Modify forgot to drop), sometimes followed by
+			// DeleteAll, which deletes what such an iteration yields
+			if len(g.locked) > 0 && r.Chance(g.weight(5, "C03 C04 C01 C09", 3)) {
+				var lt []int
+				for tb := range g.locked {
+					lt = append(lt, tb)
+				}
+				tab := lt[r.Intn(len(lt))]
+				var q string
+				switch r.Intn(7) {
+				case 0, 1:
+					q = "all"
+				case 2:
+					k := g.pickID()
+					if len(k) > 0 {
+						k = k[:r.Intn(len(k))]
+					}
+					q = "prefix id " + hx.Hex(k)
+				case 3:
+					q = "lb id " + hx.Hex(g.pickID())
+				case 4:
+					q = "prefix n " + hx.Hex(hx.Pick(r, g.nkeys))
+				case 5:
+					q = "lb rev 0000000000000000"
+				default:
+					q = "list n " + hx.Hex(hx.Pick(r, g.nkeys))
+				}
+				g.emit("q txn %d %s", tab, q)
+				saved := g.locked
+				g.locked = map[int]bool{tab: true} // writeOp prefers a locked table: make it this one
+				if r.Chance(55) {
+					o := g.newObj()
+					g.emit("modify %d %s", tab, g.objArgs(o))
+					g.sh.modify(tab, "modify", 0, o, g.open)
+				} else {
+					g.writeOp()
+				}
+				g.locked = saved
+				g.emit("q txn %d %s", tab, q)
+				if r.Chance(25) {
+					g.emit("deleteall %d", tab)
+					g.sh.deleteAll(tab)
+					g.emit("q txn %d all", tab)
+				}
+			}
 			switch x := r.Intn(100); {
 			case x < 60:
 				g.writeOp()
@@ -811,6 +858,68 @@ func (g *genState) genCase(id string) {
 				txn("insert", o2, nil)
 				g.emit("q fresh %d gnum", tb)
 			}
+		}
+		if r.Chance(g.weight(3, "C03 C08 C07", 4)) {
+			// a tombstone outlives its last iterator: an object is deleted while an iterator exists, the iterator is
+			// closed before the collector runs, the object is re-created while the table has NO iterator (the stale
+			// tombstone must go then), a new iterator is registered and the object is deleted again - the deletion
+			// must be retained for the new iterator and Delete must return the object (S4-C03-2 / S4-C08-3: the
+			// clean-up of the old tombstone on re-insert was tied to the existence of an iterator)
+			tb := r.Intn(2)
+			for id := 0; id < g.nextIter; id++ {
+				if t, ok := g.iters[id]; ok && t == tb {
+					g.emit("close %d", id)
+					delete(g.iters, id)
+					delete(g.fresh, id)
+				}
+			}
+			txn := func(f func()) {
+				g.emit("begin %d", tb)
+				g.locked = map[int]bool{tb: true}
+				g.sh.begin(g.locked)
+				f()
+				g.emit("commit %d", g.nextSnap)
+				g.sh.commit()
+				g.snaps = append(g.snaps, g.nextSnap)
+				g.nextSnap++
+			}
+			ins := func(o *Obj, word string) func() {
+				return func() {
+					g.emit("%s %d %s", word, tb, g.objArgs(o))
+					g.sh.modify(tb, word, 0, o, true)
+				}
+			}
+			del := func(id []byte) func() {
+				return func() {
+					g.emit("delete %d %s", tb, hx.Hex(id))
+					g.sh.delete(tb, false, 0, id, true)
+				}
+			}
+			a := g.nextIter
+			g.nextIter++
+			txn(func() { g.emit("changes %d %d", a, tb) })
+			o := g.newObj()
+			txn(ins(o, "insert"))
+			txn(del(o.ID))
+			g.emit("close %d", a)
+			oc := *o // the same keys (unique keys are derived from the id), another value
+			oc.Val = o.Val%9 + 1
+			o2 := &oc
+			txn(ins(o2, hx.Pick(r, []string{"insert", "modify"})))
+			b := g.nextIter
+			g.nextIter++
+			if r.Chance(50) {
+				txn(func() { g.emit("changes %d %d", b, tb) })
+				txn(del(o.ID))
+			} else {
+				txn(func() { g.emit("changes %d %d", b, tb); del(o.ID)() })
+			}
+			g.iters[b] = tb
+			g.emit("next %d fresh all", b)
+			g.itSnap[b] = len(g.snaps)
+			g.emit("gcscan")
+			g.emit("gcapply")
+			g.emit("q fresh %d gnum", tb)
 		}
 		if r.Chance(g.weight(3, "C10 C05", 5)) {
 			g.emit("regdup")
